@@ -3,12 +3,15 @@ import Mathlib.LinearAlgebra.Matrix.PosDef
 import Mathlib.Analysis.Complex.Order
 import PqVerif.Lemmas.GaussCongr
 import PqVerif.Lemmas.GateLaws
+import PqVerif.Lemmas.Attenuator
+import PqVerif.Lemmas.GaussChannel
 
 /-!
 # C08 — every reachable state is a physical quantum state (partial)
 
 Proved here: the algebraic facts behind "physical in ⇒ physical out" for the unitary part of every
-simulator; what is not covered (channels, measurement updates, hafnian-based observables) is monitored on
+simulator; and for the loss channel of the Fock simulators (`attenuator`: Kraus form, complete positivity, trace); what is not covered
+(the Gaussian channels, measurement updates, hafnian-based observables) is monitored on
 the real simulators after every instruction.
 -/
 namespace Pq.C08
@@ -55,5 +58,50 @@ theorem contraction_norm_le {n : Type} [Fintype n] [DecidableEq n] (K : Matrix n
   rw [sub_mulVec, dotProduct_sub, one_mulVec, ← key] at h0
   have := (Complex.le_def.mp h0).1
   simpa using this
+
+
+/-! ## the Fock loss channel (`attenuator` in piquasso/_simulators/fock/simulation_steps.py) -/
+
+/-- the update of the code is the Kraus form `Σ_k K_k ρ K_k†` -/
+theorem attenuator_kraus_form {α : Type} [Fintype α] [DecidableEq α] (c : ℕ) (θ : ℝ) (hc : Real.cos θ ≠ 0)
+    (ρ : Matrix (Fin c × α) (Fin c × α) ℂ) :
+    Pq.Attenuator.attenuate c θ ρ = ∑ k ∈ Finset.range c, Pq.Attenuator.kraus c θ k * ρ * (Pq.Attenuator.kraus c θ k)ᴴ :=
+  Pq.Attenuator.attenuate_eq_kraus c θ hc ρ
+
+/-- the Kraus operators are complete on the truncated space -/
+theorem attenuator_kraus_complete {α : Type} [Fintype α] [DecidableEq α] (c : ℕ) (θ : ℝ) :
+    ∑ k ∈ Finset.range c, (Pq.Attenuator.kraus (α := α) c θ k)ᴴ * Pq.Attenuator.kraus c θ k = 1 :=
+  Pq.Attenuator.kraus_complete c θ
+
+/-- physical in ⇒ physical out: positive semidefinite, Hermitian, same trace, for every cutoff, every number of
+spectator modes and every angle with `cos θ ≠ 0` -/
+theorem attenuator_keeps_physical {α : Type} [Fintype α] [DecidableEq α] (c : ℕ) (θ : ℝ) (hc : Real.cos θ ≠ 0)
+    (ρ : Matrix (Fin c × α) (Fin c × α) ℂ) (hρ : ρ.PosSemidef) :
+    (Pq.Attenuator.attenuate c θ ρ).PosSemidef ∧ (Pq.Attenuator.attenuate c θ ρ).IsHermitian ∧
+      Matrix.trace (Pq.Attenuator.attenuate c θ ρ) = Matrix.trace ρ :=
+  ⟨Pq.Attenuator.attenuate_posSemidef c θ hc ρ hρ, Pq.Attenuator.attenuate_isHermitian c θ hc ρ hρ.isHermitian,
+    Pq.Attenuator.attenuate_trace c θ hc ρ⟩
+
+
+/-! ## deterministic Gaussian channels `σ ↦ X σ Xᵀ + Y` (`DeterministicGaussianChannel`) -/
+
+/-- the documented condition `Y + iΩ - i X Ω Xᵀ ⪰ 0` keeps the uncertainty relation `σ + iΩ ⪰ 0`, any number of modes -/
+theorem gaussian_channel_keeps_uncertainty {n : Type} [Fintype n] [DecidableEq n] (σ X Y Ω : Matrix n n ℂ)
+    (hσ : (σ + Complex.I • Ω).PosSemidef)
+    (hch : (Y + Complex.I • Ω - Complex.I • (X * Ω * Xᴴ)).PosSemidef) :
+    (X * σ * Xᴴ + Y + Complex.I • Ω).PosSemidef :=
+  Pq.GaussChannel.channel_keeps_uncertainty σ X Y Ω hσ hch
+
+open Pq.GaussChannel in
+/-- the condition evaluated by `_validate` (`Y - iΩ - i X Ω Xᵀ ⪰ 0`) is NOT sufficient: it accepts the time reversal of one
+mode, which sends a physical two-mode squeezed vacuum to an unphysical covariance matrix; and it rejects the identity
+channel, which the documented condition accepts (recorded known finding `gaussian-channel:validation-sign`) -/
+theorem gaussian_channel_code_condition_wrong :
+    ((0 : Matrix (Fin 2) (Fin 2) ℂ) - Complex.I • Ω1 - Complex.I • (Xrev * Ω1 * Xrevᴴ)).PosSemidef ∧
+    (tmsv + Complex.I • Ω2).PosSemidef ∧
+    ¬ (Xrev2 * tmsv * Xrev2ᴴ + 0 + Complex.I • Ω2).PosSemidef ∧
+    ¬ ((0 : Matrix (Fin 2) (Fin 2) ℂ) - Complex.I • Ω1
+        - Complex.I • ((1 : Matrix (Fin 2) (Fin 2) ℂ) * Ω1 * (1 : Matrix (Fin 2) (Fin 2) ℂ)ᴴ)).PosSemidef :=
+  ⟨code_condition_accepts_time_reversal, tmsv_physical, code_condition_insufficient, code_condition_rejects_identity.1⟩
 
 end Pq.C08
